@@ -31,3 +31,97 @@ def gate_target(x, widx=0, gdir=None):
 
 def reset_calls():
     _calls.clear()
+
+
+# ---- LAND targets: finite, deterministic line paths -------------------------------------------------------------
+def t_loop(marker=None, n=3):
+    x = 0
+    for i in range(n):
+        x += i
+    return 7
+
+
+def t_tryfinally(marker=None, n=3):
+    x = 0
+    try:
+        for i in range(n):
+            x += i
+    finally:
+        if marker:
+            with open(marker, 'a') as f:
+                f.write('f')
+    return 7
+
+
+def t_raise(marker=None, n=2):
+    x = 0
+    for i in range(n):
+        x += i
+    raise ValueError('a', 1)
+
+
+def t_ret_now(marker=None):
+    return 7
+
+
+def t_raise_now(marker=None):
+    raise ValueError('a', 1)
+
+
+def t_none(marker=None):
+    return None
+
+
+def t_zero(marker=None):
+    return 0
+
+
+def t_big(marker=None, size=1 << 20):
+    return b'x' * size
+
+
+class MyBaseExc(BaseException):
+    pass
+
+
+def t_baseexc(marker=None):
+    raise MyBaseExc('base', 2)
+
+
+def t_sysexit(marker=None):
+    raise SystemExit(3)
+
+
+class NeedsTwo(Exception):
+    def __init__(self, a, b):
+        super().__init__('%s-%s' % (a, b))
+        self.a = a
+        self.b = b
+
+
+def t_unrebuildable_exc(marker=None):
+    raise NeedsTwo(1, 2)
+
+
+class BadResult:
+    def __reduce__(self):
+        return (_explode, ())
+
+
+def _explode():
+    raise RuntimeError('cannot be rebuilt')
+
+
+def t_unrebuildable_result(marker=None):
+    return BadResult()
+
+
+def p_echo(x, marker=None):
+    y = x * 10
+    return y
+
+
+def p_poison(x, marker=None):
+    if x == 99:
+        raise ValueError('poison', x)
+    return x * 10
